@@ -17,6 +17,7 @@ def run(ctx):
         "(4) K15: the map files every module under its own start overhang. By induction this is the documented closed "
         "form for every chain length and every rotation. Decides these structural/arithmetic facts, not the behaviour of "
         "re or Biopython."
+        ' The walk loop may sit in a generator consumed by a for loop (the loop-carried state is then split over the frames); private functions of the assembly layer are found by role (sa/roles.py), decorators of inlined functions are classified (sa/decorators.py), and whichever summary of CircularRecord.__getitem__ / << / + the evaluator applied is proved in the same run as a lemma.'
     )
     r.not_decided = [
         "that CPython's re finds the match the pattern denotes (T2)",
